@@ -113,6 +113,9 @@ type Point struct {
 	Chosen         int   // index into Enabled
 	RunningEnabled bool
 	Op             string // what the chosen thread performs
+	// RunningFocus: the operation the running thread is about to perform is on a focused object (or no
+	// focus is set). Explorers that restrict preemptions to focused objects branch only where this is true.
+	RunningFocus bool
 }
 
 // ThreadPanic records a panic on a virtual thread (in production: process death if it is a library goroutine).
@@ -159,6 +162,22 @@ type sched struct {
 
 var active *sched
 var endToken uint64
+
+// focus, when non-nil, is the set of synchronisation objects at which an explorer may place
+// preemptions (switches at blocking points are always explored). It does not change what Run does.
+var focus map[unsafe.Pointer]bool
+
+// SetFocus installs the focus set for the following Run calls (nil: every object).
+func SetFocus(ptrs []unsafe.Pointer) {
+	if ptrs == nil {
+		focus = nil
+		return
+	}
+	focus = map[unsafe.Pointer]bool{}
+	for _, p := range ptrs {
+		focus[p] = true
+	}
+}
 
 // Horizon is the maximal number of scheduling points per execution.
 var Horizon = 20000
@@ -457,7 +476,14 @@ func (s *sched) loop() {
 				}
 			}
 		}
-		s.res.Points = append(s.res.Points, Point{KeyBefore: s.key(), Enabled: en, Chosen: choice, RunningEnabled: runningEnabled, Op: opNames[next.pend.op]})
+		rf := true
+		if focus != nil && runningEnabled {
+			switch running.pend.op {
+			case opLock, opRLock, opWAnnounce, opWAcquire, opTryLock, opTryRLock:
+				rf = focus[running.pend.obj]
+			}
+		}
+		s.res.Points = append(s.res.Points, Point{KeyBefore: s.key(), Enabled: en, Chosen: choice, RunningEnabled: runningEnabled, Op: opNames[next.pend.op], RunningFocus: rf})
 		if s.trace {
 			s.res.Trace = append(s.res.Trace, s.describe(next))
 		}
